@@ -235,6 +235,16 @@ def extra_checks(ctx):
         for use in ("set", "get", "del"):
             progs.append({"family": "name-hash", "traits": {"i": "int", "a": "any"}, "steps": [
                 ["new", "o"], ["hashname", "o", "a", fail_at, 20, use], ["gc"]]})
+    # every validate kind / delegate prefix type / default value type the guards admit or reject, under the sanitizer
+    for v in range(-1, 27):
+        progs.append({"family": "raw-ctrait", "traits": {"i": "int"}, "steps": [
+            ["new", "o"], ["raw_ctrait", 0, "validate", v, "all"], ["gc"]]})
+    for v in range(-2, 7):
+        progs.append({"family": "raw-ctrait", "traits": {"i": "int"}, "steps": [
+            ["new", "o"], ["raw_ctrait", 3, "delegate", v, "getstate"], ["gc"]]})
+    for v in range(-1, 13):
+        progs.append({"family": "raw-ctrait", "traits": {"i": "int"}, "steps": [
+            ["new", "o"], ["raw_ctrait", 0, "default", v, "all"], ["gc"]]})
     nthreads = 12
     hits = []
     lock = threading.Lock()
